@@ -303,8 +303,36 @@ def validate(res, tier, rng, only=None):
                 cases.append(c), cidx.append(i)
         if tr is not None:
             traces.append(tr), tidx.append(i)
-    v1 = K_.run_cases("Trace_C17", cases, {}, procs=8)
-    v2 = EM.run_traces(traces, procs=8)
+    # self-test of the validators: corrupted copies of good observations must be rejected, naming the clause
+    selfc, selft = [], []
+    if only is None:
+        hy0 = next((c for c in cases if c["kind"] == "hysc" and c["N"] > len({n for e in c["edges"] for n in e})), None)
+        if hy0 is not None:
+            bad = json.loads(json.dumps(hy0))
+            iso = next(i for i in range(1, bad["N"] + 1) if all(i not in e for e in bad["edges"]))
+            bad["out"][iso - 1][0] = 1                      # an isolated node gets a community
+            selfc.append((bad, "hysc_none_for_isolated_node"))
+        mt0 = next((c for c in cases if c["kind"] == "mt"), None)
+        if mt0 is not None:
+            bad = json.loads(json.dumps(mt0))
+            bad["wshape"] = [bad["wshape"][0] + 1, bad["wshape"][1]]
+            selfc.append((bad, "w_shape"))
+        tr0 = next((t for t in traces if t["cfg"]["nReal"] >= 2), None)
+        if tr0 is not None:
+            a = json.loads(json.dumps(tr0))
+            a["ev"][-1]["maxx"] = a["ev"][-1]["maxx"] - 1   # maxL below the best final value
+            a["ev"][-1].pop("same", None)
+            selft.append((a, "max_loglik_is_best_final"))
+    v1 = K_.run_cases("Trace_C17", cases + [x for x, _ in selfc], {}, procs=8)
+    v2 = EM.run_traces(traces + [x for x, _ in selft], procs=8)
+    for j, (_, clause) in enumerate(selfc):
+        if not any(k == len(cases) + j and clause in f for k, f in v1["rejects"]):
+            raise tlc.TLCError("Trace_C17 self-test: corrupted case %d was not rejected with %s" % (j, clause))
+    for j, (_, clause) in enumerate(selft):
+        if not any(t == len(traces) + j and clause in f for t, _, f in v2["rejects"]):
+            raise tlc.TLCError("Trace_EM self-test: corrupted trace %d was not rejected with %s" % (j, clause))
+    v1["rejects"] = [r for r in v1["rejects"] if r[0] < len(cases)]
+    v2["rejects"] = [r for r in v2["rejects"] if r[0] < len(traces)]
 
     def short(cfg):
         return {k: cfg[k] for k in ("N", "K", "edges", "weights", "family", "seed", "n_realizations", "max_iter", "every",
@@ -344,7 +372,7 @@ def validate(res, tier, rng, only=None):
             ascent_not_judged_no_probe=sum(1 for i_ in infos if i_.get("ascent_judged") is False),
             loglik_definition_checked=sum(1 for c in cases if "lldef" in c),
             with_isolated_nodes=sum(1 for c in cfgs if c["N"] > len({n for e in c["edges"] for n in e})),
-            hooks_installed=hooks() is not None)
+            hooks_installed=hooks() is not None, validator_selftests=len(selfc) + len(selft))
     if traces:
         res.sample({"config": short(cfgs[tidx[0]]), "train_info_rows": infos[tidx[0]].get("train_info", [])[:6], "maxL": infos[tidx[0]].get("maxL")})
 
